@@ -1,2 +1,3 @@
 import Props.C03
 import Props.C16
+import Props.C20
